@@ -897,10 +897,97 @@ fn replay(ctx: &Ctx, sess: &mut Session, w: &mut World, skel: &(String, String),
     }
 }
 
+/// The record path of the SERVER: `workspace/executeCommand HarperRecordLint [<RecordKind as JSON
+/// text>]` through the real `Backend`, `shutdown` (→ `save_stats` appends to the statistics file of
+/// the configuration), two sessions on one file; `Stats::read` of that file must return exactly the
+/// kinds that were sent, in order. One record for every `LintKind` the real rules produce.
+fn server_sessions(sess: &mut Session, ctx: &Ctx, only: Option<Vec<String>>) {
+    use crate::lsclient::*;
+    let (_, _, stats_path) = set_home(&ctx.out.join("c19-home"));
+    let _ = std::fs::remove_file(&stats_path);
+    let cfg = json!({"harper-ls": {}});
+    // kinds: from real lints until every lint kind the rules produce has been seen, plus a config update
+    let kinds: Vec<String> = match only {
+        Some(k) => k,
+        None => {
+            let dict = FstDictionary::curated();
+            let mut group = LintGroup::new_curated(dict.clone(), Dialect::American);
+            group.set_all_rules_to(Some(true));
+            let mut seen = std::collections::BTreeSet::new();
+            let mut out = vec![];
+            let extra = ["Hello , world.".to_string(), "This is an test of teh the the thing , you know ; it costs 5$ and i like it alot.".to_string()];
+            for t in extra.iter().chain(crate::corpus::sentences().iter()) {
+                let doc = Document::new_plain_english(t, &*dict);
+                let Ok(lints) = guarded(|| group.lint(&doc)) else { continue };
+                for l in lints {
+                    if seen.insert(format!("{:?}", l.lint_kind)) {
+                        if let Ok(k) = guarded(|| RecordKind::from_lint(&l, &doc)) {
+                            out.push(serde_json::to_string(&k).unwrap());
+                        }
+                    }
+                }
+                if seen.len() >= 10 {
+                    break;
+                }
+            }
+            sess.add("server:lint-kinds-recorded", seen.len() as u64);
+            out.push(serde_json::to_string(&RecordKind::LintConfigUpdate(harper_core::linting::LintGroupConfig::new_curated())).unwrap());
+            out
+        }
+    };
+    let half = kinds.len() / 2;
+    let r: Result<(), LsError> = (|| {
+        for part in [&kinds[..half], &kinds[half..]] {
+            let mut ls = LsSession::start()?;
+            ls.initialize(&cfg)?;
+            for k in part {
+                ls.request_sync("workspace/executeCommand", json!({"command": "HarperRecordLint", "arguments": [k]}), &cfg)?;
+            }
+            ls.shutdown(&cfg)?;
+        }
+        Ok(())
+    })();
+    sess.monitor("the in-process language server completed the C19 sessions", r.is_ok());
+    if r.is_err() {
+        return;
+    }
+    sess.o();
+    let input = json!({"kind": "server", "record_kinds": kinds});
+    let back = guarded(|| std::fs::File::open(&stats_path).map_err(|e| e.to_string()).and_then(|f| Stats::read(&mut std::io::BufReader::new(f)).map_err(|e| e.to_string())));
+    match back {
+        Ok(Ok(st)) => {
+            let got: Vec<Value> = st.records.iter().map(|r| serde_json::to_value(&r.kind).unwrap()).collect();
+            let want: Vec<Value> = kinds.iter().map(|k| serde_json::from_str(k).unwrap_or(Value::Null)).collect();
+            if got != want {
+                let first = got.iter().zip(want.iter()).position(|(a, b)| a != b).unwrap_or(got.len().min(want.len()));
+                sess.fail("server-records-differ", format!("{} records were sent to HarperRecordLint in two sessions, the statistics file reads back {}; first difference at #{}", want.len(), got.len(), first), input, None);
+            } else {
+                sess.nontrivial("server-sessions");
+                sess.count("origin:server-sessions");
+            }
+        }
+        Ok(Err(e)) => sess.fail("read-error", format!("the statistics file written by the server's save_stats cannot be read back: {}", e), input, None),
+        Err(_) => sess.fail("panic", "Stats::read panicked on the server's statistics file".into(), input, None),
+    }
+}
+
 pub fn run(ctx: &Ctx) {
     let mut sess = Session::new(ctx);
     let mut rng = Rng::new(ctx.seed);
     let thorough = ctx.tier == Tier::Thorough;
+    if let Some(v) = replay_input(ctx) {
+        if v["kind"] == "server" {
+            let k: Vec<String> = serde_json::from_value(v["record_kinds"].clone()).unwrap_or_default();
+            server_sessions(&mut sess, ctx, Some(k));
+            sess.nontrivial("replay-a");
+            sess.nontrivial("replay-b");
+            sess.finish("replay of one recorded server session", false, json!({}));
+            return;
+        }
+    } else {
+        // first, while this is the only thread (it sets HOME)
+        server_sessions(&mut sess, ctx, None);
+    }
     let dir = std::env::temp_dir().join(format!("hv-c19-{}-{}", std::process::id(), ctx.seed));
     std::fs::create_dir_all(&dir).expect("temp dir");
     let dict = FstDictionary::curated();
@@ -1089,7 +1176,7 @@ pub fn run(ctx: &Ctx) {
     }
     let _ = std::fs::remove_dir_all(&dir);
     sess.finish(
-        "corpus (incl. the recorded `1e999` witness); exhaustively: escaping of all strings of ≤3 chars over {a \" \\ \\n \\r \\t NUL 0x1F DEL é U+2028 😀} and of every char < 0x30, `lines` of all strings of ≤5 (thorough ≤7) chars over {a \\n \\r}, parsing of all JSON string literals with bodies of ≤3 (thorough ≤4) chars over {\" \\ u n / a \\n 0x01 é space} and a grid of \\uXXXX escapes (both hex cases, surrogates); random: strings over all of Unicode (controls, line separators, astral), serde_json's own output mutated, logs of skeleton records through the real Stats::write/read incl. CRLF/blank-line/truncation/join mutations, lists of real Records (contexts via RecordKind::from_lint on documents with hostile characters and number spellings, directly built tokens of every kind, config updates with hostile keys; extreme timestamps) written in 1–3 append sessions to a file opened like save_stats and read back, their summaries, harper-wasm export/import. Non-trivial = escaping changed the string / more than one line or a CR / a record with hostile content / a summary with ≥2 kinds or a misspelt word.",
+        "corpus (incl. the recorded `1e999` witness); exhaustively: escaping of all strings of ≤3 chars over {a \" \\ \\n \\r \\t NUL 0x1F DEL é U+2028 😀} and of every char < 0x30, `lines` of all strings of ≤5 (thorough ≤7) chars over {a \\n \\r}, parsing of all JSON string literals with bodies of ≤3 (thorough ≤4) chars over {\" \\ u n / a \\n 0x01 é space} and a grid of \\uXXXX escapes (both hex cases, surrogates); random: strings over all of Unicode (controls, line separators, astral), serde_json's own output mutated, logs of skeleton records through the real Stats::write/read incl. CRLF/blank-line/truncation/join mutations, lists of real Records (contexts via RecordKind::from_lint on documents with hostile characters and number spellings, directly built tokens of every kind, config updates with hostile keys; extreme timestamps) written in 1–3 append sessions to a file opened like save_stats and read back, their summaries, harper-wasm export/import; the server's record path (HarperRecordLint for a record of every lint kind the rules produce + a configuration update, two sessions, shutdown → save_stats, Stats::read of the file). Non-trivial = escaping changed the string / more than one line or a CR / a record with hostile content / a summary with ≥2 kinds or a misspelt word.",
         true,
         json!({"exhaustive_scope": format!("esc: len ≤3 over 12 chars; lines: len ≤{} over 3 chars; unq: body len ≤{} over 10 chars", lmax, umax)}),
     );
